@@ -93,6 +93,13 @@ func (m *defaultVarMocker) doSet(value interface{}) {
 		m.originValue = m.targetValue.Elem().Interface()
 	}
 	d := reflect.ValueOf(value)
+	if !d.IsValid() {
+		// an untyped nil: the nil of the variable's own type (nil interface, nil pointer, nil map, ...)
+		switch t := m.targetValue.Elem().Type(); t.Kind() {
+		case reflect.Interface, reflect.Ptr, reflect.Map, reflect.Slice, reflect.Func, reflect.Chan, reflect.UnsafePointer:
+			d = reflect.Zero(t)
+		}
+	}
 	m.targetValue.Elem().Set(d)
 	m.mockValue = value
 }
